@@ -292,6 +292,7 @@ func build(tier string) []*explore.Scenario {
 		{"delimiter+text", [][]string{{"string"}, {"string"}}, [][]int{{10}, {10}}},
 		{"delimiter+text", [][]string{{"[]byte", "[]byte"}, {"[]byte"}}, [][]int{{10, 1025}, {10}}},
 		{"delimiter+text", [][]string{{"*bytes.Buffer"}, {"[]byte"}}, [][]int{{10}, {10}}},
+		{"delimiter+text", [][]string{{"Reader"}, {"string"}}, [][]int{{10}, {10}}},
 		{"prepender2", [][]string{{"[]byte", "*bytes.Buffer"}, {"[][]byte", "*bytes.Reader"}}, [][]int{{10, 1024}, {1025, 10}}},
 		{"varint", [][]string{{"[]byte", "Reader"}, {"*bytes.Buffer"}}, [][]int{{10, 2500}, {1025}}},
 	}
